@@ -76,61 +76,12 @@ func newCluster(w *world) (*cluster, error) {
 	default:
 		return fail("unknown mode %q", w.Mode)
 	}
-	rc := mc.GetReplicationConfig().Clone()
-	rc.MaxReplicas = uint64(w.MaxReplicas)
-	rc.LocationLabels = append([]string(nil), w.LocationLabels...)
-	rc.IsolationLevel = w.IsolationLevel
-	rc.StrictlyMatchLabel = w.StrictlyMatchLabel
-	rc.EnablePlacementRules = false // the default of this pd version is on; switched on below when the world asks for rules
-	mc.SetReplicationConfig(rc)
-	sc := mc.GetScheduleConfig().Clone()
-	sc.EnableMakeUpReplica = w.Switches.MakeUp
-	sc.EnableRemoveExtraReplica = w.Switches.RemoveExtra
-	sc.EnableLocationReplacement = w.Switches.LocationReplacement
-	sc.EnableRemoveDownReplica = w.Switches.RemoveDown
-	sc.EnableReplaceOfflineReplica = w.Switches.ReplaceOffline
-	sc.LowSpaceRatio = w.LowSpaceRatio
-	sc.HighSpaceRatio = w.LowSpaceRatio - 0.1
-	sc.ReplicaScheduleLimit = uint64(w.ReplicaScheduleLimit)
-	sc.MergeScheduleLimit = 0 // the merge checker is not part of the property
-	mc.SetScheduleConfig(sc)
+	applyConfig(mc, w, false) // placement rules start off (the default of this pd version is on); switched on below
 
 	for i := range w.Stores {
-		s := &w.Stores[i]
-		meta := &metapb.Store{Id: s.ID, Address: fmt.Sprintf("mock://store-%d", s.ID)}
-		switch s.State {
-		case stUp:
-			meta.State = metapb.StoreState_Up
-		case stOffline:
-			meta.State = metapb.StoreState_Offline
-		case stTombstone:
-			meta.State = metapb.StoreState_Tombstone
-		default:
-			return fail("unknown store state %q", s.State)
-		}
-		for _, l := range s.Labels {
-			meta.Labels = append(meta.Labels, &metapb.StoreLabel{Key: l.K, Value: l.V})
-		}
-		hb, err := heartbeatTS(s.HB)
-		if err != nil {
+		if err := putStore(mc, &w.Stores[i]); err != nil {
 			return fail("%v", err)
 		}
-		stats := &pdpb.StoreStats{StoreId: s.ID, Capacity: s.CapGiB * gib, Available: s.AvailGiB * gib,
-			UsedSize: (s.CapGiB - s.AvailGiB) * gib, IsBusy: s.Busy,
-			SendingSnapCount: uint32(s.SendSnap), ReceivingSnapCount: uint32(s.RecvSnap)}
-		so := []core.StoreCreateOption{
-			core.SetStoreStats(stats),
-			core.SetRegionCount(s.RegionCount),
-			core.SetRegionSize(s.RegionSizeMiB),
-			core.SetPendingPeerCount(s.Pending),
-			core.SetLastHeartbeatTS(hb),
-		}
-		if s.AddLimitOut {
-			so = append(so, core.AttachAvailableFunc(storelimit.AddPeer, func() bool { return false }))
-		}
-		mc.SetStoreLimit(s.ID, storelimit.AddPeer, 60)
-		mc.SetStoreLimit(s.ID, storelimit.RemovePeer, 60)
-		mc.PutStore(core.NewStoreInfo(meta, so...))
 	}
 
 	cl := &cluster{Cluster: mc, cancel: cancel}
@@ -140,19 +91,16 @@ func newCluster(w *world) (*cluster, error) {
 		def := &placement.Rule{GroupID: "pd", ID: "default", Role: placement.Voter, Count: w.MaxReplicas,
 			LocationLabels: append([]string(nil), w.LocationLabels...), IsolationLevel: w.IsolationLevel}
 		if err := mc.RuleManager.SetRule(def); err != nil {
-			return fail("SetRule(default): %v", err)
+			// every store carries an exclusive label: pd refuses an unconstrained rule that matches no store;
+			// the default rule the rule manager was initialised with stays (the oracles read the served rules)
+			cl.rulesDropped++
 		}
 		switch w.Rules {
 		case "default":
 		case "custom":
 			kept := 0
-			for _, rd := range w.RuleSet {
-				rule := &placement.Rule{GroupID: "pd", ID: rd.ID, Role: placement.PeerRoleType(rd.Role), Count: rd.Count,
-					LocationLabels: append([]string(nil), rd.Loc...), IsolationLevel: rd.Iso}
-				for _, c := range rd.Cons {
-					rule.LabelConstraints = append(rule.LabelConstraints, placement.LabelConstraint{Key: c.Key,
-						Op: placement.LabelConstraintOp(c.Op), Values: append([]string(nil), c.Values...)})
-				}
+			for i := range w.RuleSet {
+				rule := toRule(&w.RuleSet[i])
 				if err := mc.RuleManager.SetRule(rule); err != nil {
 					// pd refuses a rule no store can match: the world simply goes without it
 					cl.rulesDropped++
@@ -176,4 +124,84 @@ func newCluster(w *world) (*cluster, error) {
 	oc := schedule.NewOperatorController(ctx, mc, nil)
 	cl.controller = schedule.NewCheckerController(ctx, mc, mc.RuleManager, oc)
 	return cl, nil
+}
+
+// applyConfig writes the world's replication / schedule settings into the cluster's options
+// (rulesOn: whether placement rules are in force; a fresh cluster is built with them off first).
+func applyConfig(mc *mockcluster.Cluster, w *world, rulesOn bool) {
+	rc := mc.GetReplicationConfig().Clone()
+	rc.MaxReplicas = uint64(w.MaxReplicas)
+	rc.LocationLabels = append([]string(nil), w.LocationLabels...)
+	rc.IsolationLevel = w.IsolationLevel
+	rc.StrictlyMatchLabel = w.StrictlyMatchLabel
+	rc.EnablePlacementRules = rulesOn
+	mc.SetReplicationConfig(rc)
+	sc := mc.GetScheduleConfig().Clone()
+	sc.EnableMakeUpReplica = w.Switches.MakeUp
+	sc.EnableRemoveExtraReplica = w.Switches.RemoveExtra
+	sc.EnableLocationReplacement = w.Switches.LocationReplacement
+	sc.EnableRemoveDownReplica = w.Switches.RemoveDown
+	sc.EnableReplaceOfflineReplica = w.Switches.ReplaceOffline
+	sc.LowSpaceRatio = w.LowSpaceRatio
+	sc.HighSpaceRatio = w.LowSpaceRatio - 0.1
+	sc.ReplicaScheduleLimit = uint64(w.ReplicaScheduleLimit)
+	sc.MergeScheduleLimit = 0 // the merge checker is not part of the property
+	mc.SetScheduleConfig(sc)
+}
+
+// putStore (re)creates the store record from its description.
+func putStore(mc *mockcluster.Cluster, s *storeDesc) error {
+	meta := &metapb.Store{Id: s.ID, Address: fmt.Sprintf("mock://store-%d", s.ID)}
+	switch s.State {
+	case stUp:
+		meta.State = metapb.StoreState_Up
+	case stOffline:
+		meta.State = metapb.StoreState_Offline
+	case stTombstone:
+		meta.State = metapb.StoreState_Tombstone
+	default:
+		return fmt.Errorf("unknown store state %q", s.State)
+	}
+	for _, l := range s.Labels {
+		meta.Labels = append(meta.Labels, &metapb.StoreLabel{Key: l.K, Value: l.V})
+	}
+	hb, err := heartbeatTS(s.HB)
+	if err != nil {
+		return err
+	}
+	stats := &pdpb.StoreStats{StoreId: s.ID, Capacity: s.CapGiB * gib, Available: s.AvailGiB * gib,
+		UsedSize: (s.CapGiB - s.AvailGiB) * gib, IsBusy: s.Busy,
+		SendingSnapCount: uint32(s.SendSnap), ReceivingSnapCount: uint32(s.RecvSnap)}
+	so := []core.StoreCreateOption{
+		core.SetStoreStats(stats),
+		core.SetRegionCount(s.RegionCount),
+		core.SetRegionSize(s.RegionSizeMiB),
+		core.SetPendingPeerCount(s.Pending),
+		core.SetLastHeartbeatTS(hb),
+	}
+	if s.AddLimitOut {
+		so = append(so, core.AttachAvailableFunc(storelimit.AddPeer, func() bool { return false }))
+	}
+	mc.SetStoreLimit(s.ID, storelimit.AddPeer, 60)
+	mc.SetStoreLimit(s.ID, storelimit.RemovePeer, 60)
+	mc.PutStore(core.NewStoreInfo(meta, so...))
+	return nil
+}
+
+func toRule(rd *ruleDesc) *placement.Rule {
+	rule := &placement.Rule{GroupID: "pd", ID: rd.ID, Role: placement.PeerRoleType(rd.Role), Count: rd.Count,
+		LocationLabels: append([]string(nil), rd.Loc...), IsolationLevel: rd.Iso}
+	for _, c := range rd.Cons {
+		rule.LabelConstraints = append(rule.LabelConstraints, placement.LabelConstraint{Key: c.Key,
+			Op: placement.LabelConstraintOp(c.Op), Values: append([]string(nil), c.Values...)})
+	}
+	return rule
+}
+
+func descOfRule(r *placement.Rule) ruleDesc {
+	rd := ruleDesc{ID: r.ID, Role: string(r.Role), Count: r.Count, Loc: append([]string(nil), r.LocationLabels...), Iso: r.IsolationLevel}
+	for _, c := range r.LabelConstraints {
+		rd.Cons = append(rd.Cons, consDesc{Key: c.Key, Op: string(c.Op), Values: append([]string(nil), c.Values...)})
+	}
+	return rd
 }
